@@ -509,6 +509,9 @@ class HGen:
                     st["unknown"] = True
                 elif r < 0.2 and st["names"]:
                     st["names"] = st["names"] + [st["names"][0]]
+                # how the names argument is passed (Iterable[str]): re-iterable containers and
+                # one-shot iterables, in the bracket and the method forms
+                st["names_as"] = rng.choice(NAMES_AS)
                 if kind == "omit":
                     nf = [f for f in cur_fields if f not in st["names"]]
                 else:
@@ -756,9 +759,43 @@ def do_define(src, env):
     return cls
 
 
+NAMES_AS = ["tuple", "list", "set", "frozenset", "dict_keys", "genexpr", "iter", "filter", "map", "str",
+            "genexpr", "iter", "tuple"]
+
+
+def names_container(names, how):
+    """the field names as the caller passes them: any Iterable[str]"""
+    names = list(names)
+    if how == "list":
+        return names
+    if how == "set":
+        return set(names)
+    if how == "frozenset":
+        return frozenset(names)
+    if how == "dict_keys":
+        return dict.fromkeys(names).keys()
+    if how == "genexpr":
+        return (n for n in names)
+    if how == "iter":
+        return iter(names)
+    if how == "filter":
+        return filter(lambda n: True, names)
+    if how == "map":
+        return map(str, names)
+    if how == "str" and len(names) == 1 and len(names[0]) == 1:
+        return names[0]          # Pick[Foo, ("d")] of the docstring: a bare one-character name
+    return tuple(names)
+
+
+def effective_names(st):
+    """the names in the order the container hands them out (sets: this process's iteration order)"""
+    return list(names_container(st["names"], st.get("names_as", "tuple")))
+
+
 def do_derive(st, env):
     src = env.classes[st["source"]]
-    kind, names, name, via = st["kind"], tuple(st["names"]), st["name"], st.get("via", "getitem")
+    kind, name, via = st["kind"], st["name"], st.get("via", "getitem")
+    names = names_container(st["names"], st.get("names_as", "tuple"))
     if kind in ("partial", "allRequired", "extend"):
         op = {"partial": Partial, "allRequired": AllFieldsRequired, "extend": Extend}[kind]
         if via == "getitem":
@@ -1094,7 +1131,10 @@ def line(case, impl):
         if st["op"] == "abstract":
             steps.append({"op": "instantiate", "cls": "AbstractStructure", "kw": []})
             continue
-        s = {k: v for k, v in st.items() if k not in ("control", "fault", "expect_raise", "via", "unknown", "extends_derived")}
+        s = {k: v for k, v in st.items() if k not in ("control", "fault", "expect_raise", "via", "unknown", "extends_derived",
+                                                      "names_as")}
+        if st["op"] == "derive":
+            s["names"] = effective_names(st)
         if st["op"] == "define":
             s["src"] = dict(st["src"], entries=effective_entries(st["src"]["entries"]))
         if st["op"] == "derive" and "ok" in r and r["ok"]:
@@ -1183,6 +1223,8 @@ def tags(case, impl, model):
                 out.append(f"mro-depth:{len(r['ok']['mro'])}")
         elif st["op"] == "derive":
             out.append(f"derive:{st['kind']}:{res}")
+            if st.get("names_as"):
+                out.append(f"names-as:{st['names_as']}:{st.get('via')}")
     return out
 
 
